@@ -21,7 +21,7 @@ import UgoVerif.Proofs.CompileWalk
     model `Safe`) with the rules for sequencing, `ip` arithmetic and operand reads;
   * every data primitive keeps `CtxI code v` (c07's `Keeps` calculus, c16b's `ckeeps` tactic).
 -/
-namespace UgoVerif.VM
+namespace UgoVerif.VM.Cfi
 open UgoVerif UgoVerif.Go
 open UgoVerif.Compile (Walk Bd readBE opWidth)
 
@@ -672,4 +672,4 @@ theorem xk_callBuiltin (i : Nat) (args : List V) : Keeps (CtxI code iv) (callBui
 macro_rules | `(tactic| ck_prim) => `(tactic| exact xk_callBuiltin _ _)
 
 end
-end UgoVerif.VM
+end UgoVerif.VM.Cfi
